@@ -97,8 +97,12 @@ type env struct {
 	old  mempool.Allocator
 }
 
-func newEnv(movingBody bool) *env {
-	e := &env{Pool: NewTracker("mempool.DefaultMemPool", false), Body: NewTracker("BodyAllocator", movingBody)}
+func newEnv(movingBody bool) *env { return newEnv2(false, movingBody) }
+
+// newEnv2 also chooses the flavour of the package-level pool: an application may install
+// mempool.NewAligned() as mempool.DefaultMemPool, whose Append moves the buffer.
+func newEnv2(movingPool, movingBody bool) *env {
+	e := &env{Pool: NewTracker("mempool.DefaultMemPool", movingPool), Body: NewTracker("BodyAllocator", movingBody)}
 	mrand.ResetFallback(1)
 	e.old = mempool.DefaultMemPool
 	mempool.DefaultMemPool = e.Pool
@@ -346,7 +350,7 @@ type MsgSpec struct {
 }
 
 var tokenNames = []string{"X-A", "X-Trace-Id", "Accept", "User-Agent", "x-lower", "Cache-Control", "X_Under", "If-None-Match"}
-var headerValues = []string{"1", "abc", "text/html; q=0.8", "a, b", "W/\"etag\"", "keep", "0", "x=y; z"}
+var headerValues = []string{"1", "abc", "text/html; q=0.8", "a, b", "W/\"etag\"", "keep", "0", "x=y; z", ""}
 
 func bodyBytes(seed, n int) []byte {
 	b := make([]byte, n)
